@@ -57,7 +57,7 @@ func main() {
 	if v := lib.EnvInt("VERIF_N", 0); v > 0 {
 		nA, nB = int(v), int(v)*2
 	}
-	var itemsA, itemsB []string
+	var itemsA, itemsB, itemsC []string
 	for i := 0; i < nA; i++ {
 		itemsA = append(itemsA, indexHistory(c, seed*1_000_003+int64(i), rep))
 	}
@@ -68,7 +68,18 @@ func main() {
 		r := lib.NewRand(seed*2_000_003 + int64(i))
 		itemsB = append(itemsB, m.run(genMix(r, i, seed*2_000_003+int64(i)), rep))
 	}
+	// part C: a failing transfer signalled by false / nothing / revert; the first case is the deterministic trigger
+	itemsC = append(itemsC, legacyCase(c, &GCase{Seed: -3, Flavour: 1, Bal: [2]int64{500, 0}, Ops: []GOp{
+		{K: "ConvertERC20", A: 100, R: 100, X: 200}, {K: "ConvertERC20", A: 101, R: 101, X: 300}, {K: "ConvertERC20", A: 100, R: 101, X: 301},
+		{K: "ConvertCoin", A: 100, R: 101, X: 150}}}, true, rep))
+	nC := nB / 5
+	for i := 0; i < nC; i++ {
+		r := lib.NewRand(seed*3_000_003 + int64(i))
+		gc := &GCase{Seed: seed*3_000_003 + int64(i), Flavour: i % 3, Bal: [2]int64{int64(100 + r.Intn(900)), int64(r.Intn(300))}}
+		itemsC = append(itemsC, legacyCase(c, gc, false, rep))
+	}
 	if mode != "search" {
+		lib.WriteCases("Cases_C08leg.v", []string{"model.M_Erc20", "model.M_Erc20Corr"}, "gcase", itemsC, "legacy_mismatch")
 		lib.WriteCases("Cases_C08idx.v", []string{"model.M_Erc20", "model.M_Erc20Corr"}, "icase", itemsA, "index_mismatch")
 		lib.WriteCases("Cases_C08mix.v", []string{"model.M_Erc20", "model.M_Erc20Corr"}, "mcase", itemsB, "mixed_mismatch")
 	}
@@ -718,7 +729,7 @@ func replay(c *lib.Chain, x *lib.XChain, rep *lib.Report) {
 		Replay struct {
 			Part    string    `json:"part"`
 			History *IHistory `json:"history"`
-			Case    *MixCase  `json:"case"`
+			Case    json.RawMessage `json:"case"`
 		} `json:"replay"`
 	}
 	lib.Must(json.Unmarshal(b, &doc))
@@ -731,8 +742,14 @@ func replay(c *lib.Chain, x *lib.XChain, rep *lib.Report) {
 		}
 	case "mixed":
 		m := setupMixed(c, x)
-		mc := &MixCase{Seed: doc.Replay.Case.Seed, N: doc.Replay.Case.N, Prog: doc.Replay.Case.Prog}
+		var in MixCase
+		lib.Must(json.Unmarshal(doc.Replay.Case, &in))
+		mc := &MixCase{Seed: in.Seed, N: in.N, Prog: in.Prog}
 		fmt.Println(m.run(mc, rep))
+	case "legacy":
+		var gc GCase
+		lib.Must(json.Unmarshal(doc.Replay.Case, &gc))
+		fmt.Println(legacyCase(c, &gc, true, rep))
 	}
 	for _, f := range rep.Failures {
 		fmt.Println("FAILURE:", f.Sig, "—", f.What)
